@@ -25,6 +25,10 @@ import (
 	"math"
 	"net"
 	"net/netip"
+	"os/exec"
+	"runtime"
+	"strings"
+	"syscall"
 	"testing"
 
 	"github.com/jsimonetti/rtnetlink"
@@ -332,6 +336,72 @@ func TestVerifC13Addresser(t *testing.T) {
 			Input: map[string]any{"failure": f.name}, Observed: map[string]any{"requests": calls, "error": err != nil, "routes": len(rs)}}
 		if calls > 0 && err == nil {
 			c.ImplViolation = fmt.Sprintf("LoopbackRoutes made %d route requests, all failed (%s), and returned %d routes without an error", calls, f.name, len(rs))
+		}
+		out.Emit(c)
+	}
+
+	// ---- (6) loopback routes follow the system, not the first look at it (private network namespace, root only):
+	// a new namespace starts with `lo` down and without routes; the same Addresser must report a route added to
+	// `lo` after it was brought up
+	if out.Wants("c13sys-netns-loopback") {
+		c := verifh.Case{ID: "c13sys-netns-loopback", Tags: []string{"stream:netns-loopback"}, Input: map[string]any{"kind": "netns-loopback"}}
+		res := make(chan string, 1)
+		go func() {
+			runtime.LockOSThread() // this thread moves into the new namespace and dies with the goroutine
+			if err := syscall.Unshare(syscall.CLONE_NEWNET); err != nil {
+				res <- "unavailable: " + err.Error()
+				return
+			}
+			ip := func(arg ...string) error {
+				bin, err := exec.LookPath("ip")
+				if err != nil {
+					return err
+				}
+				if out, err := exec.Command(bin, arg...).CombinedOutput(); err != nil {
+					return fmt.Errorf("ip %v: %v: %s", arg, err, out)
+				}
+				return nil
+			}
+			a := NewAddresser()
+			first, err := a.LoopbackRoutes()
+			if err != nil {
+				res <- "unavailable: " + err.Error()
+				return
+			}
+			if err := ip("link", "set", "lo", "up"); err != nil {
+				res <- "unavailable: " + err.Error()
+				return
+			}
+			if err := ip("-6", "route", "add", "2001:db8:77::/48", "dev", "lo"); err != nil {
+				res <- "unavailable: " + err.Error()
+				return
+			}
+			has := func(rs []Route) bool {
+				for _, r := range rs {
+					if r.Prefix == netip.MustParsePrefix("2001:db8:77::/48") {
+						return true
+					}
+				}
+				return false
+			}
+			later, err1 := a.LoopbackRoutes()
+			fresh, err2 := NewAddresser().LoopbackRoutes()
+			switch {
+			case err2 != nil || !has(fresh):
+				res <- fmt.Sprintf("unavailable: a fresh Addresser does not see the route either (%v, %v)", fresh, err2)
+			case has(first):
+				res <- "the route was reported before it existed"
+			case err1 != nil || !has(later):
+				res <- fmt.Sprintf("an Addresser first used while lo was down never reports the route added later: %v (error %v); a fresh one reports %v", later, err1, fresh)
+			default:
+				res <- ""
+			}
+		}()
+		if r := <-res; strings.HasPrefix(r, "unavailable") {
+			c.Tags = append(c.Tags, "real-netlink:unavailable")
+			c.Observed = r
+		} else {
+			c.ImplViolation = r
 		}
 		out.Emit(c)
 	}
